@@ -7,6 +7,8 @@
    actor task, for every capacity c.  Tie: ./check C19.  Statements only. *)
 From Compio.Model Require Import Base Actor.
 From Compio.Thm Require Import ActorThm.
+From Compio.Gen Require Frag.
+From Compio.Thm Require FragMiscThm.
 
 (* ---------------------------------------------------------------------- *)
 (* serial FIFO                                                              *)
@@ -337,3 +339,15 @@ Example C19_group_nonvacuous :
   gsend out [13; 10; 11] 2 = (GBack true, [10], 3, [11; 13; 10]).
 Proof. split; vm_compute; reflexivity. Qed.
 Print Assumptions C19_group_nonvacuous.
+
+(* ---- source tie (translated from the Rust source on every run by tools/rs2v.py
+        into gen/Frag.v; an edit of the function changes the generated definition) ---- *)
+(* `index = (index + 1) % state.members.len()` of ProcessGroup::send
+   (compio-actor/src/process_group/mod.rs) as the source has it now is the advance of the
+   model's routing loop after a full member *)
+Theorem C19_group_advance_is_source : forall out a ms idx sawf tried,
+  ms <> [] -> out (nth idx ms 0) = MFull ->
+  gloop out (S a) ms idx sawf tried
+  = gloop out a ms (Frag.pg_next_index idx (length ms)) true (tried ++ [nth idx ms 0]).
+Proof. exact FragMiscThm.pg_full_tie. Qed.
+Print Assumptions C19_group_advance_is_source.
